@@ -10,6 +10,11 @@ Import ListNotations.
 Local Open Scope N_scope.
 
 (* ---------- decoders never produce more characters than they consume ---------- *)
+Definition olen (o : option text) : nat := match o with Some l => length l | None => O end.
+
+(* length of the decoded text from an equation Some (c :: t1) = Some t, without unfolding c *)
+Ltac len_of H := apply (f_equal olen) in H; cbv beta iota delta [olen] in H; cbn [length] in H.
+
 Lemma utf8_step_shrinks b :
   match utf8_step b with
   | U8End => True
@@ -33,8 +38,8 @@ Proof.
     + destruct (utf8_decode_fuel se f r) as [t'|] eqn:E; [|discriminate]. injection H as <-.
       apply IH in E. cbn [length]. lia.
     + destruct se; [|discriminate].
-      destruct (utf8_decode_fuel true f r) as [t'|] eqn:E; [|discriminate]. injection H as <-.
-      apply IH in E. cbn [length]. lia.
+      destruct (utf8_decode_fuel true f r) as [t'|] eqn:E; [|discriminate]. len_of H.
+      apply IH in E. lia.
 Qed.
 
 Lemma units16_len be : forall fuel b u, units16 be fuel b = Some u -> (2 * length u <= length b)%nat.
@@ -53,7 +58,7 @@ Proof.
   - destruct u as [|a r]; [injection H as <-; cbn; lia|].
     destruct ((55296 <=? a) && (a <=? 56319)).
     + destruct r as [|c r']; [discriminate|]. destruct ((56320 <=? c) && (c <=? 57343)); [|discriminate].
-      destruct (pair16 f r') as [t'|] eqn:E; [|discriminate]. injection H as <-.
+      destruct (pair16 f r') as [t'|] eqn:E; [|discriminate]. len_of H.
       apply IH in E. cbn [length]. lia.
     + destruct ((56320 <=? a) && (a <=? 57343)); [discriminate|].
       destruct (pair16 f r) as [t'|] eqn:E; [|discriminate]. injection H as <-.
